@@ -41,6 +41,10 @@ def correspondence(res, tier, seed):
         rand = bool(i % 2)
         m = gen_PrecipitationHurdleModel(cdf_randomization=rand)
         data = np.where(rs.rand(40) < r.choice([0.1, 0.5, 0.8]), 0.0, np.round(rs.gamma(0.9, 4.0, 40) * 64 + 1) / 64)
+        if len(set(data[data > 0])) < 3:
+            # fewer than three distinct wet values: SciPy's gamma fit has nothing to fit (it raises on a single / constant wet
+            # sample); outside "enough wet values to fit a distribution" -- counted, not a case
+            res.count("degenerate-wet-sample-skipped"); continue
         p0, fr = m.fit(data)
         # fit: dry probability
         add("close (fst (hurdle_fit (const_dist 0 0) %s)) %s (1#1000000000000)" % (C.ql([Fraction(float(v)) for v in data]), C.q(p0)),
